@@ -45,7 +45,7 @@ fn mk_carrier(args: BTreeMap<Arc<str>, FieldValue>) -> QueryCarrier {
     QueryCarrier { query: Some(InterpretedQuery { indexed_query: Arc::new(iq), arguments: Arc::new(args) }) }
 }
 fn var(name: &str, list: bool) -> Argument {
-    let t = if list { Type::parse("[Int!]!").unwrap() } else { Type::parse("Int!").unwrap() };
+    let t = if list { Type::new_list_type(Type::new_named_type("Int", false), false) } else { Type::new_named_type("Int", false) };
     Argument::Variable(VariableRef { variable_name: Arc::from(name), variable_type: t })
 }
 const OPS: [&str; 8] = ["=", "<", "<=", ">", ">=", "one_of", "!=", "not_one_of"];
@@ -153,3 +153,107 @@ pub(crate) fn c22_grid_collect_fold_elements() {
     } } }
     vk::grid_done("c22_grid_collect_fold_elements", n);
 }
+
+// ---- Kani: the limit arithmetic for a single count filter, argument over the full integer domain ----
+fn single_filter_case(op: &'static str, arg: FieldValue) -> (Option<usize>, Option<usize>) {
+    let mut args = BTreeMap::new();
+    args.insert(Arc::from("x"), arg);
+    let fold = mk_fold(vec![mk_filter(op, "x")]);
+    let mut carrier = mk_carrier(args);
+    let max = get_max_fold_count_limit(&mut carrier, &fold);
+    let min = get_min_fold_count_limit(&mut carrier, &fold);
+    core::mem::forget((carrier, fold));
+    (max, min)
+}
+fn int_arg() -> (FieldValue, i128) {
+    if vk::any_bool() { let i = vk::any_i64(); (FieldValue::Int64(i), i as i128) } else { let u = vk::any_u64(); (FieldValue::Uint64(u), u as i128) }
+}
+fn check_limits(max: Option<usize>, min: Option<usize>, pass: &dyn Fn(i128) -> bool, c: i128) {
+    if let Some(m) = max {
+        assert!(!(c > m as i128) || !pass(c), "max limit: every larger count fails the filters");
+    }
+    if let Some(k) = min {
+        let t = if c < k as i128 { c } else { k as i128 };
+        assert!(pass(c) == pass(t), "min limit: truncating the fold to it does not change the filters' verdict");
+    }
+}
+fn sym_int(signed: bool, i: i64, u: u64) -> (FieldValue, i128) {
+    if signed { (FieldValue::Int64(i), i as i128) } else { (FieldValue::Uint64(u), u as i128) }
+}
+macro_rules! single_filter_harness {
+    ($name:ident, $op:literal, $pass:expr, $cover_max:literal, $cover_min:literal) => {
+        #[kani::proof]
+        #[kani::unwind(3)]
+        pub(crate) fn $name() {
+            let signed = vk::any_bool();
+            let (i, u) = (vk::any_i64(), vk::any_u64());
+            let x: i128 = if signed { i as i128 } else { u as i128 };
+            let (max, min) = if signed { single_filter_case($op, FieldValue::Int64(i)) } else { single_filter_case($op, FieldValue::Uint64(u)) };
+            let c = vk::any_u64() as i128;
+            verif_cover!(max.is_some() == $cover_max && min.is_some() == $cover_min, "expected kind of limit produced");
+            let f: fn(i128, i128) -> bool = $pass;
+            check_limits(max, min, &|c| f(c, x), c);
+        }
+    };
+}
+// @harness c22_limit_single_lt tier=quick kind=complete timeout=900 unwindset="!memcmp.0=12"
+// @ob one count filter `< $x`, x any Int64/Uint64 (negative, zero, > i64::MAX), every count c in 0..2^64: max limit m => (c > m => !(c < x)); min limit n => verdict(c) == verdict(min(c, n))
+single_filter_harness!(c22_limit_single_lt, "<", |c, x| c < x, true, false);
+// @harness c22_limit_single_le tier=quick kind=complete timeout=900 unwindset="!memcmp.0=12"
+// @ob same for `<= $x`
+single_filter_harness!(c22_limit_single_le, "<=", |c, x| c <= x, true, false);
+// @harness c22_limit_single_eq tier=quick kind=complete timeout=900 unwindset="!memcmp.0=12"
+// @ob same for `= $x`
+single_filter_harness!(c22_limit_single_eq, "=", |c, x| c == x, true, false);
+// @harness c22_limit_single_gt tier=quick kind=complete timeout=900 unwindset="!memcmp.0=12"
+// @ob same for `> $x` (min limit x+1, saturating)
+single_filter_harness!(c22_limit_single_gt, ">", |c, x| c > x, false, true);
+// @harness c22_limit_single_ge tier=quick kind=complete timeout=900 unwindset="!memcmp.0=12"
+// @ob same for `>= $x` (min limit x)
+single_filter_harness!(c22_limit_single_ge, ">=", |c, x| c >= x, false, true);
+// @harness c22_limit_single_ne tier=quick kind=complete timeout=900 unwindset="!memcmp.0=12"
+// @ob same for `!= $x` (no limit may be produced)
+single_filter_harness!(c22_limit_single_ne, "!=", |c, x| c != x, false, false);
+
+macro_rules! two_filter_harness {
+    ($name:ident, $op1:literal, $op2:literal, $pass1:expr, $pass2:expr) => {
+        #[kani::proof]
+        #[kani::unwind(4)]
+        pub(crate) fn $name() {
+            let (s1, s2) = (vk::any_bool(), vk::any_bool());
+            let (i1, u1, i2, u2) = (vk::any_i64(), vk::any_u64(), vk::any_i64(), vk::any_u64());
+            let (x, y): (i128, i128) = (if s1 { i1 as i128 } else { u1 as i128 }, if s2 { i2 as i128 } else { u2 as i128 });
+            let mk = |s: bool, i: i64, u: u64| if s { FieldValue::Int64(i) } else { FieldValue::Uint64(u) };
+            let mut args = BTreeMap::new();
+            // concrete variants on each path
+            match (s1, s2) {
+                (true, true) => { args.insert(Arc::from("x"), FieldValue::Int64(i1)); args.insert(Arc::from("y"), FieldValue::Int64(i2)); }
+                (true, false) => { args.insert(Arc::from("x"), FieldValue::Int64(i1)); args.insert(Arc::from("y"), FieldValue::Uint64(u2)); }
+                (false, true) => { args.insert(Arc::from("x"), FieldValue::Uint64(u1)); args.insert(Arc::from("y"), FieldValue::Int64(i2)); }
+                (false, false) => { args.insert(Arc::from("x"), FieldValue::Uint64(u1)); args.insert(Arc::from("y"), FieldValue::Uint64(u2)); }
+            }
+            let _ = mk;
+            let fold = mk_fold(vec![mk_filter($op1, "x"), mk_filter($op2, "y")]);
+            let mut carrier = mk_carrier(args);
+            let max = get_max_fold_count_limit(&mut carrier, &fold);
+            let min = get_min_fold_count_limit(&mut carrier, &fold);
+            core::mem::forget((carrier, fold));
+            let c = vk::any_u64() as i128;
+            verif_cover!(max.is_some() || min.is_some(), "a limit is produced");
+            let (f1, f2): (fn(i128, i128) -> bool, fn(i128, i128) -> bool) = ($pass1, $pass2);
+            check_limits(max, min, &|c| f1(c, x) && f2(c, y), c);
+        }
+    };
+}
+// @harness c22_limit_pair_lt_le tier=thorough heavy=1 kind=complete timeout=3000 unwindset="!memcmp.0=12"
+// @ob two count filters `< $x` and `<= $y` (combining two max limits), all integer arguments and counts
+two_filter_harness!(c22_limit_pair_lt_le, "<", "<=", |c, x| c < x, |c, y| c <= y);
+// @harness c22_limit_pair_gt_ge tier=thorough heavy=1 kind=complete timeout=3000 unwindset="!memcmp.0=12"
+// @ob two count filters `> $x` and `>= $y` (combining two min limits)
+two_filter_harness!(c22_limit_pair_gt_ge, ">", ">=", |c, x| c > x, |c, y| c >= y);
+// @harness c22_limit_pair_ge_le tier=thorough heavy=1 kind=complete timeout=3000 unwindset="!memcmp.0=12"
+// @ob `>= $x` and `<= $y` together: the max limit applies, no min limit may be produced
+two_filter_harness!(c22_limit_pair_ge_le, ">=", "<=", |c, x| c >= x, |c, y| c <= y);
+// @harness c22_limit_pair_ge_ne tier=thorough heavy=1 kind=complete timeout=3000 unwindset="!memcmp.0=12"
+// @ob `>= $x` and `!= $y` together: no min limit may be produced (the `!=` filter would see a truncated count)
+two_filter_harness!(c22_limit_pair_ge_ne, ">=", "!=", |c, x| c >= x, |c, y| c != y);
